@@ -726,7 +726,7 @@ int expr_neq_emit(expr * value, int stack_level, module * module_value,
     else if (value->left->comb.comb == COMB_TYPE_BOOL &&
              value->right->comb.comb == COMB_TYPE_BOOL)
     {
-        bc.type = BYTECODE_OP_EQ_INT;
+        bc.type = BYTECODE_OP_NEQ_INT;
     }
     else if (value->left->comb.comb == COMB_TYPE_INT &&
              value->right->comb.comb == COMB_TYPE_INT)
